@@ -393,3 +393,4 @@ add("C05", "domain refresh stops at an already refreshed ancestor", "nifty/cl/op
 add("C12", "eigenvalue cut-off at the dtype's machine epsilon", "nifty/re/tree_math/util.py", "def _check(v, cut=1e-16):\n    return v > cut", "def _check(v, cut=None):\n    cut = jnp.finfo(v.dtype).eps if cut is None else cut\n    return v > cut", "R12.14")
 add("C05", "shared chain object cut once per parent", "nifty/cl/operator_tree_optimiser.py", "                    if id(leaf_op) in truncated:\n", "                    if False:\n", "R05.6")
 add("C05", "cut objects not remembered", "nifty/cl/operator_tree_optimiser.py", "                        truncated.add(id(leaf_op))\n", "", "R05.6")
+add("C05", "nodes registered from every chain position", "nifty/cl/operator_tree_optimiser.py", "            if isnode(op._ops[-1]):\n                nodes.append((op._ops[-1], active_node, left))\n                isleaf = False\n", "            for i in range(len(op._ops)):\n                if isnode(op._ops[i]):\n                    nodes.append((op._ops[i], active_node, left))\n                    isleaf = False\n", "R05.7")
